@@ -176,6 +176,18 @@ CATALOGUE = [
     ("C15", "c15-return-place-unbound", EL, "                        self.parent.returned_entity_id = entity_id\n                        break\n", "                        break\n", 1, "fire", "C15-R15"),
     ("C06", "c06-silent-skip", SL, "            else:\n                self._error(\n                    f\"Cannot set '{prop_name}': '{entity_name}' does not refer to a placed entity\",\n                    stmt,\n                )\n", "", 1, "fire", "C06-R15"),
     ("C19", "c19-dict-order-from-set", CP, "merge_list = sorted(source_merge_edges.keys())", "merge_list = list(source_merge_edges)", 1, "fire", "C19-R1"),
+    ("C14", "c14-projection-drops-name", AN, "            if source.signal_type is not None:\n                # The inner type is dropped: report an unknown or reserved name first\n                self.get_expr_type(source)\n", "", 1, "fire", "C14-R14"),
+    ("C14", "c14-second-write-from-loop", ML, "        if memory_id in self._written_memory_ids:\n", "        if False:\n", 1, "fire", "C14-R15"),
+    ("C14", "c14-nested-literal-unwrapped", TR, "        if isinstance(value, SignalLiteral) and value.signal_type is None:", "        if isinstance(value, SignalLiteral):", 1, "fire", "C14-R14"),
+    ("C14", "c14-empty-bundle-is-dynamic", AN, "        if isinstance(bundle_type, DynamicBundleValue):\n            # The members", "        if isinstance(bundle_type, DynamicBundleValue) or not bundle_type.signal_types:\n            # The members", 1, "fire", "C14-R16"),
+    ("C13", "c13-duplicate-implicit-member", AN, "                    if signal_name in seen_signals:\n", "                    if signal_name in seen_signals and not element_type.signal_type.is_implicit:\n", 1, "fire", "C13-R10"),
+    ("C13", "c13-pool-peek", SA, "        signal_name = self._available_signal_pool[self._signal_pool_index]\n", "        signal_name = self._available_signal_pool[(self._signal_pool_index + 1) % len(self._available_signal_pool)]\n", 1, "fire", "C13-R11"),
+    ("C15", "c15-probe-wrong-key", ML, "get_operation(f\"mem_create_{memory_id}\")", "get_operation(f\"mem_create_{stmt.name}\")", 1, "fire", "C15-R17"),
+    ("C16", "c16-step-name-ignored", TR, "                if i + 1 < len(items):\n                    step_value", "                if i + 1 < len(items) and isinstance(items[i + 1], int):\n                    step_value", 1, "fire", "number or a name"),
+    ("C12", "c12-relay-helper-no-isolation", CP, "            if (\n                node_dist_to_source <= span_limit\n                and node_dist_to_ideal <= 3.0\n                and node.can_route_network(network_id, wire_color)\n            ):", "            if (\n                node_dist_to_source <= span_limit\n                and node_dist_to_ideal <= 3.0\n            ):", 1, "fire", "can_route_network"),
+    ("C15", "c15-decl-typed-by-global", SL, "            if symbol is not None and symbol.defined_at is not stmt:\n                # Declared in a function or loop body: the name found is somebody else's\n                symbol = None\n", "", 1, "fire", "C15-R19"),
+    ("C10", "c10-remainder-sign", "dsl_compiler/src/common/int32.py", "    return left - right * trunc_div(left, right)", "    remainder = abs(left) % abs(right)\n    return -remainder if (left < 0) != (right < 0) else remainder", 1, "fire", "C10-R17"),
+    ("C11", "c11-remainder-sign", "dsl_compiler/src/common/int32.py", "    return left - right * trunc_div(left, right)", "    remainder = abs(left) % abs(right)\n    return -remainder if (left < 0) != (right < 0) else remainder", 1, "fire", "witness"),
 ]
 
 CATALOGUE = [m for m in CATALOGUE if m[3] != "PLACEHOLDER-NOT-PRESENT"]
